@@ -117,7 +117,7 @@ PROPS = {
                       "newMessage", "newRequest"],
         "streams": [
             {"stream": "tdbind", "n_quick": 20000, "n_thorough": 1500000},
-            {"stream": "tdlive", "n_quick": 60, "n_thorough": 2000, "timeout_quick": 900, "timeout_thorough": 6000},
+            {"stream": "tdlive", "n_quick": 300, "n_thorough": 6000, "timeout_quick": 900, "timeout_thorough": 6000},
         ],
         "trusted": BER_TRUST,
         "assumptions": ["plain / TLS / StartTLS transports deliver the same bind request to the handler (C13, C18); this check drives the handler in-process through the directory's own mux"],
